@@ -354,6 +354,8 @@ void ares_dnsrec_convert_cb(void *arg, ares_status_t status, size_t timeouts,
                             const ares_dns_record_t *dnsrec);
 
 void ares_free_query(ares_query_t *query);
+void ares_query_complete(ares_query_t *query, ares_status_t status,
+                         size_t timeouts, const ares_dns_record_t *dnsrec);
 
 unsigned short ares_generate_new_id(ares_rand_state *state);
 ares_status_t  ares_expand_name_validated(const unsigned char *encoded,
